@@ -1,6 +1,451 @@
-import MementoModel.Lemmas.StoreInv
+import MementoModel.Lemmas.StoreCache
 
-/-! Helper lemmas for the storage refinement proofs. -/
+/-! Per-operation refinement lemmas for the storage backends (used by `Props/C05.lean`). -/
+set_option linter.unusedSimpArgs false
+set_option linter.unusedVariables false
 namespace Memento.Store
+open Memento
+
+/-! ## Memory backend -/
+namespace MemBackend
+
+/-- the entry the abstraction builds for a memento-table row -/
+def absEntry (r : List ((Fn × Arg) × Option Bytes)) (p : (Fn × Arg) × Nat) : (Fn × Arg) × Entry :=
+  (p.1, ⟨p.2, (alookup r p.1).getD none⟩)
+
+theorem abs_eq (s : MemBackend) : abs s = ⟨s.mementos.map (absEntry s.result), s.metadata⟩ := rfl
+
+theorem alookup_abs_entries (m : List ((Fn × Arg) × Nat)) (r) (k : Fn × Arg) :
+    alookup (m.map (absEntry r)) k = (alookup m k).map (fun x => ⟨x, (alookup r k).getD none⟩) :=
+  alookup_map_val m (fun k x => (⟨x, (alookup r k).getD none⟩ : Entry)) k
+
+theorem map_absEntry_congr {m : List ((Fn × Arg) × Nat)} {r r' : List ((Fn × Arg) × Option Bytes)}
+    (h : ∀ p ∈ m, alookup r' p.1 = alookup r p.1) : m.map (absEntry r') = m.map (absEntry r) := by
+  apply List.map_congr_left
+  intro p hp
+  simp only [absEntry, h p hp]
+
+theorem filter_map_absEntry (m : List ((Fn × Arg) × Nat)) (r) (f : Fn × Arg → Bool) :
+    (m.map (absEntry r)).filter (fun p => f p.1) = (m.filter (fun p => f p.1)).map (absEntry r) := by
+  rw [List.filter_map]; rfl
+
+/-- filtering both tables by key commutes with the abstraction -/
+theorem map_absEntry_filter (m : List ((Fn × Arg) × Nat)) (r : List ((Fn × Arg) × Option Bytes))
+    (f : Fn × Arg → Bool) :
+    (m.filter (fun p => f p.1)).map (absEntry (r.filter (fun p => f p.1)))
+      = (m.map (absEntry r)).filter (fun p => f p.1) := by
+  rw [filter_map_absEntry]
+  apply map_absEntry_congr
+  intro p hp
+  have := (List.mem_filter.mp hp).2
+  rw [alookup_filter r f, if_pos this]
+
+end MemBackend
+
+/-! ## Filesystem backend -/
+
+/-- one step refines the dictionary: same answer, abstraction commutes, invariant preserved -/
+def Refines (s : FsBackend) (op : Op) : Prop :=
+  (FsBackend.step s op).2 = (Spec.step (FsBackend.abs s) op).2 ∧
+  FsBackend.abs (FsBackend.step s op).1 = (Spec.step (FsBackend.abs s) op).1 ∧
+  WF (FsBackend.step s op).1
+
+open FsBackend
+
+theorem abs_lookup_mem (d : DS) (fn : Fn) (arg : Arg) :
+    (alookup (absDS d).entries (fn, arg)).map (·.mem) = (readMemento d fn arg).map (·.1) := by
+  rw [alookup_abs_entries]
+  unfold storeEntry
+  cases readMemento d fn arg with
+  | none => rfl
+  | some p => obtain ⟨m, ck⟩ := p; rfl
+
+theorem abs_lookup_val (d : DS) (fn : Fn) (arg : Arg) :
+    (alookup (absDS d).entries (fn, arg)).map (·.val) =
+      (readMemento d fn arg).map (fun x => (loadResult d x.2).getD none) := by
+  rw [alookup_abs_entries]
+  unfold storeEntry
+  cases readMemento d fn arg with
+  | none => rfl
+  | some p => obtain ⟨m, ck⟩ := p; rfl
+
+theorem abs_lookup_isSome (d : DS) (fn : Fn) (arg : Arg) :
+    (alookup (absDS d).entries (fn, arg)).isSome = (readMemento d fn arg).isSome := by
+  rw [alookup_abs_entries]
+  unfold storeEntry
+  cases readMemento d fn arg with
+  | none => rfl
+  | some p => obtain ⟨m, ck⟩ := p; rfl
+
+theorem step_memoize (s : FsBackend) (hw : s.readOnly = false) (fn arg ov mem val size wr) :
+    step s (.memoize fn arg ov mem val size wr) =
+      ({ cachePut s fn arg mem val size wr true with
+          ds := ((codecStore s.ds ov val).1.output (.memento fn arg) (.mrec mem (codecStore s.ds ov val).2)).1,
+          heap := aset s.heap mem ⟨fn, arg, (codecStore s.ds ov val).2⟩ }, .unit) := by
+  obtain ⟨f1, f2, f3⟩ := cachePut_fields s fn arg mem val size wr true 0
+  simp only [step, hw, Bool.false_eq_true, if_false, f1, f2]
+
+theorem fs_memoize {s : FsBackend} (h : WF s) (fn arg ov mem val size wr)
+    (hadm : FsBackend.admissible s (.memoize fn arg ov mem val size wr)) :
+    Refines s (.memoize fn arg ov mem val size wr) := by
+  obtain ⟨hheap, hfresh, hval⟩ := hadm
+  obtain ⟨f1, f2, f3⟩ := cachePut_fields s fn arg mem val size wr true 0
+  rcases hc : codecStore s.ds ov val with ⟨d1, ck⟩
+  obtain ⟨hwf, hread, hstore, habs⟩ := memoize_ds h.ds fn arg ov mem val hval hc
+  unfold Refines
+  rw [step_memoize s h.writable, hc]
+  refine ⟨rfl, habs, ?_⟩
+  generalize hd2 : (d1.output (.memento fn arg) (.mrec mem ck)).1 = d2 at hwf hread hstore
+  simp only
+  have hne : ∀ {m'} {mi : MInfo}, alookup s.heap m' = some mi → m' ≠ mem := by
+    intro m' mi hm e; rw [e, hheap] at hm; cases hm
+  refine ⟨hwf, f3.trans h.writable, ?_, ?_, ?_⟩
+  · intro m' mi hm' fn' arg' ck' hr'
+    simp only [alookup_aset] at hm'
+    simp only at hr'
+    rw [hread] at hr'
+    by_cases e : (fn', arg') = (fn, arg)
+    · rw [if_pos e] at hr'
+      cases hr'; cases e
+      simp only [if_true, Option.some.injEq] at hm'
+      subst hm'
+      exact ⟨rfl, rfl, rfl⟩
+    · rw [if_neg e] at hr'
+      rw [if_neg (hfresh _ _ _ _ hr')] at hm'
+      exact h.heapOk m' mi hm' fn' arg' ck' hr'
+  · intro fn1 arg1 fn2 arg2 m ck1 ck2 hr1 hr2
+    simp only at hr1 hr2
+    rw [hread] at hr1 hr2
+    by_cases e1 : (fn1, arg1) = (fn, arg)
+    · by_cases e2 : (fn2, arg2) = (fn, arg)
+      · cases e1; cases e2; exact ⟨rfl, rfl⟩
+      · rw [if_pos e1] at hr1; rw [if_neg e2] at hr2
+        cases hr1
+        exact absurd rfl (hfresh _ _ _ _ hr2)
+    · by_cases e2 : (fn2, arg2) = (fn, arg)
+      · rw [if_neg e1] at hr1; rw [if_pos e2] at hr2
+        cases hr2
+        exact absurd rfl (hfresh _ _ _ _ hr1)
+      · rw [if_neg e1] at hr1; rw [if_neg e2] at hr2
+        exact h.memUnique _ _ _ _ _ _ _ hr1 hr2
+  · intro c' hc'
+    cases hcache : s.cache with
+    | none => simp only [cachePut, hcache] at hc'; cases hc'
+    | some c =>
+      simp only [cachePut, hcache, Option.some.injEq] at hc'
+      subst hc'
+      have hco := h.cacheOk c hcache
+      have hkne : ∀ k' : Cache.Key, k' ≠ ckey fn arg → ¬ (k'.fn, k'.arg) = (fn, arg) := by
+        intro k' hk e
+        apply hk
+        cases k'; simp only [ckey]; cases e; rfl
+      apply coherent_put
+      · exact hco.inv
+      · intro k' e hke hk
+        refine (hco.entryOk k' e hke).transfer ?_ ?_
+        · show storeEntry d2 k'.fn k'.arg = _
+          rw [hstore, if_neg (hkne k' hk)]
+        · intro mi hmi
+          show alookup (aset s.heap mem _) e.mem = _
+          rw [alookup_aset, if_neg (hne hmi)]; exact hmi
+      · intro k' v' hkv hk
+        refine (hco.refOk k' v' hkv).transfer ?_
+        show storeEntry d2 k'.fn k'.arg = _
+        rw [hstore, if_neg (hkne k' (hk rfl))]
+      · refine ⟨ck, val, ?_, ?_, fun _ => objBytes_objId val 0 hval⟩
+        · show storeEntry d2 fn arg = _
+          rw [hstore, if_pos rfl]
+        · show alookup (aset s.heap mem _) mem = _
+          rw [alookup_aset, if_pos rfl]; rfl
+      · intro _
+        refine ⟨mem, ck, ?_⟩
+        show storeEntry d2 fn arg = _
+        rw [hstore, if_pos rfl, objBytes_objId val 0 hval]
+
+theorem fs_getm {s : FsBackend} (h : WF s) (ks : List (Fn × Arg)) : Refines s (.getm ks) := by
+  obtain ⟨a, b, c⟩ := getMementos_spec h ks
+  unfold Refines
+  simp only [step, Spec.step]
+  rcases hg : getMementos s ks with ⟨s', ms⟩
+  rw [hg] at a b c
+  simp only at a b c ⊢
+  refine ⟨?_, by rw [abs_eq, abs_eq, b], a⟩
+  rw [c]
+  congr 1
+  apply List.map_congr_left
+  intro k _
+  rw [abs_eq, ← abs_lookup_mem]
+
+theorem fs_lookread {s : FsBackend} (h : WF s) (fn : Fn) (arg : Arg) : Refines s (.lookread fn arg) := by
+  obtain ⟨g1, g2, g3, g4⟩ := getMemento_spec h fn arg
+  unfold Refines
+  simp only [step, Spec.step]
+  rcases hg : getMemento s fn arg with ⟨s1, om⟩
+  rw [hg] at g1 g2 g3 g4
+  simp only at g1 g2 g3 g4
+  cases om with
+  | none =>
+    simp only
+    refine ⟨?_, by rw [abs_eq, abs_eq, g2], g1⟩
+    rw [abs_eq, abs_lookup_val]
+    cases hr : readMemento s.ds fn arg with
+    | none => rfl
+    | some p => rw [hr] at g3; cases g3
+  | some m =>
+    obtain ⟨ck, hr, hheap⟩ := g4 m rfl
+    simp only
+    generalize sizeOf s1 _ = sz
+    generalize wrOf s1 _ = w
+    obtain ⟨r1, r2, r3, r4⟩ := readResult_spec g1 sz w hheap (g2 ▸ hr)
+    rcases hrr : readResult s1 m sz w with ⟨s2, ov⟩
+    rw [hrr] at r1 r2 r3
+    simp only at r1 r2 r3
+    rw [g2] at r3 r4
+    cases ov with
+    | none => rw [← r3] at r4; cases r4
+    | some v =>
+      simp only
+      refine ⟨?_, by rw [abs_eq, abs_eq, r2, g2], r1⟩
+      rw [abs_eq, abs_lookup_val, hr]
+      simp only [Option.map_some, ← r3, Option.getD_some]
+
+theorem fs_ismem {s : FsBackend} (h : WF s) (fn : Fn) (arg : Arg) : Refines s (.ismem fn arg) := by
+  obtain ⟨a, b, c⟩ := isMemoized_spec h fn arg
+  unfold Refines
+  simp only [step, Spec.step]
+  rcases hg : isMemoized s fn arg with ⟨s', r⟩
+  rw [hg] at a b c
+  simp only at a b c ⊢
+  exact ⟨by rw [c, abs_eq, abs_lookup_isSome], by rw [abs_eq, abs_eq, b], a⟩
+
+theorem Spec.mk_congr {a a' : List ((Fn × Arg) × Entry)} {b b' : List ((Fn × Arg × MKey) × Bytes)}
+    (h1 : a = a') (h2 : b = b') : Spec.mk a b = Spec.mk a' b' := by rw [h1, h2]
+
+/-- the common shape of the three forgets -/
+theorem step_forget_wf {s : FsBackend} (h : WF s) (sel : K → Bool) (f : Cache.State → Cache.State)
+    (h1 : ∀ fn arg mk wd, sel (.memento fn arg) = true → sel (.mdat fn arg mk wd) = true)
+    (h2 : (∀ k, sel k = true → k.isMetaArea = true) ∨ (∀ k, sel k = true))
+    (hf : ∀ c, Cache.Inv c → Cache.Inv (Cache.prune (f c)) ∧
+      (∀ p ∈ (f c).cache, p ∈ c.cache ∧ sel (.memento p.1.fn p.1.arg) = false) ∧
+      (∀ p ∈ (f c).refs, p ∈ c.refs ∧ sel (.memento p.1.fn p.1.arg) = false)) :
+    WF { mapCache s f with ds := (mapCache s f).ds.deleteWhere sel } ∧
+    abs { mapCache s f with ds := (mapCache s f).ds.deleteWhere sel } =
+      ⟨(abs s).entries.filter (fun q => (fun c : Fn × Arg => !sel (.memento c.1 c.2)) q.1),
+       (abs s).mdata.filter (fun q => (fun c : Fn × Arg × MKey => !sel (.mdat c.1 c.2.1 c.2.2 false)) q.1)⟩ :=
+  ⟨forget_wf h sel f h1 h2 hf, abs_deleteWhere h.ds sel h2⟩
+
+theorem fs_fcall {s : FsBackend} (h : WF s) (fn : Fn) (arg : Arg) : Refines s (.fcall fn arg) := by
+  obtain ⟨a, b⟩ := step_forget_wf h (fun k => k.call? == some (fn, arg))
+    (fun c => Cache.forgetCall c (ckey fn arg))
+    (by intro fn' arg' mk wd hs; simpa [K.call?] using hs)
+    (Or.inl (by intro k hk; cases k <;> first | rfl | simp [K.call?] at hk))
+    (by
+      intro c hc
+      refine ⟨Cache.prune_stepRaw_inv (.fcall (ckey fn arg)) hc, ?_, ?_⟩
+      · intro p hp
+        obtain ⟨x, y⟩ := Cache.mem_forgetCall.1 p hp
+        refine ⟨x, ?_⟩
+        simp only [K.call?, beq_eq_false_iff_ne, ne_eq, Option.some.injEq]
+        intro e; apply y
+        cases hp1 : p.1; rw [hp1] at e; simp only at e; cases e; rfl
+      · intro p hp
+        obtain ⟨x, y⟩ := Cache.mem_forgetCall.2 p hp
+        refine ⟨x, ?_⟩
+        simp only [K.call?, beq_eq_false_iff_ne, ne_eq, Option.some.injEq]
+        intro e; apply y
+        cases hp1 : p.1; rw [hp1] at e; simp only at e; cases e; rfl)
+  unfold Refines
+  simp only [step, h.writable, Bool.false_eq_true, if_false, Spec.step]
+  refine ⟨trivial, ?_, a⟩
+  rw [b]
+  apply Spec.mk_congr
+  · rw [adel_eq]
+    apply List.filter_congr
+    intro q _
+    obtain ⟨⟨f, a⟩, en⟩ := q
+    by_cases e : (f, a) = (fn, arg)
+    · cases e; simp [K.call?, nekey]
+    · have e' : ¬ (f = fn ∧ a = arg) := by
+        intro ⟨x, y⟩; apply e; rw [x, y]
+      have e2 : ((f, a) == (fn, arg)) = false := by simpa using e
+      simp [K.call?, nekey, e, e', e2]
+  · apply List.filter_congr
+    intro q _
+    obtain ⟨⟨f, a, k⟩, bb⟩ := q
+    simp only [K.call?, Bool.not_eq_eq_eq_not, Bool.not_not]
+    rw [Bool.eq_iff_iff]
+    simp
+
+theorem fs_ffn {s : FsBackend} (h : WF s) (fn : Fn) : Refines s (.ffn fn) := by
+  obtain ⟨a, b⟩ := step_forget_wf h (fun k => k.fn? == some fn)
+    (fun c => Cache.forgetFunction c fn)
+    (by intro fn' arg' mk wd hs; simpa [K.fn?] using hs)
+    (Or.inl (by intro k hk; cases k <;> first | rfl | simp [K.fn?] at hk))
+    (by
+      intro c hc
+      refine ⟨Cache.prune_stepRaw_inv (.ffn fn) hc, ?_, ?_⟩
+      · intro p hp
+        obtain ⟨x, y⟩ := Cache.mem_forgetFunction.1 p hp
+        exact ⟨x, by simpa [K.fn?] using y⟩
+      · intro p hp
+        obtain ⟨x, y⟩ := Cache.mem_forgetFunction.2 p hp
+        exact ⟨x, by simpa [K.fn?] using y⟩)
+  unfold Refines
+  simp only [step, h.writable, Bool.false_eq_true, if_false, Spec.step]
+  refine ⟨trivial, ?_, a⟩
+  rw [b]
+  apply Spec.mk_congr
+  · apply List.filter_congr
+    intro q _
+    simp [K.fn?]
+  · apply List.filter_congr
+    intro q _
+    simp [K.fn?]
+
+theorem fs_fall {s : FsBackend} (h : WF s) : Refines s .fall := by
+  obtain ⟨a, b⟩ := step_forget_wf h (fun k => if s.separate then k.isMetaArea else true)
+    Cache.forgetEverything
+    (by intro fn' arg' mk wd hs; cases s.separate <;> rfl)
+    (by
+      cases s.separate with
+      | true => exact Or.inl (fun k hk => by simpa using hk)
+      | false => exact Or.inr (fun k => rfl))
+    (by
+      intro c hc
+      refine ⟨Cache.prune_stepRaw_inv .fall hc, ?_, ?_⟩
+      · intro p hp; cases hp
+      · intro p hp; cases hp)
+  unfold Refines
+  simp only [step, h.writable, Bool.false_eq_true, if_false, Spec.step]
+  refine ⟨trivial, ?_, a⟩
+  rw [b]
+  unfold Spec.empty
+  apply Spec.mk_congr
+  · apply List.filter_eq_nil_iff.mpr
+    intro q _
+    cases s.separate <;> simp [K.isMetaArea]
+  · apply List.filter_eq_nil_iff.mpr
+    intro q _
+    cases s.separate <;> simp [K.isMetaArea]
+
+theorem fs_lsf {s : FsBackend} (h : WF s) : Refines s .lsf := by
+  unfold Refines
+  simp only [step, Spec.step]
+  exact ⟨by rw [abs_eq, lsf_eq h.ds], trivial, h⟩
+
+theorem fs_lsm {s : FsBackend} (h : WF s) (fn : Fn) : Refines s (.lsm fn) := by
+  unfold Refines
+  simp only [step, Spec.step]
+  refine ⟨?_, trivial, h⟩
+  rw [abs_eq]
+  congr 2
+  exact lsm_eq s.ds fn s.ds.links
+
+theorem fs_wmeta {s : FsBackend} (h : WF s) (fn : Fn) (arg : Arg) (mk : MKey) (b : Bytes)
+    (hadm : FsBackend.admissible s (.wmeta fn arg mk b)) : Refines s (.wmeta fn arg mk b) := by
+  obtain ⟨hwf, hread, hstore, habs⟩ := wmeta_ds h.ds fn arg mk b hadm
+  unfold Refines
+  simp only [step, h.writable, Bool.false_eq_true, if_false, Spec.step]
+  refine ⟨trivial, habs, ?_⟩
+  refine ⟨hwf, by first | rfl | exact h.writable, ?_, ?_, ?_⟩
+  · intro m mi hm fn' arg' ck hr
+    simp only at hr; rw [hread] at hr
+    exact h.heapOk m mi hm fn' arg' ck hr
+  · intro fn1 arg1 fn2 arg2 m ck1 ck2 hr1 hr2
+    simp only at hr1 hr2; rw [hread] at hr1 hr2
+    exact h.memUnique _ _ _ _ _ _ _ hr1 hr2
+  · intro c hc
+    have hco := h.cacheOk c hc
+    exact ⟨fun k e hke => (hco.entryOk k e hke).transfer (hstore _ _) (fun _ x => x),
+      fun k v hkv => (hco.refOk k v hkv).transfer (hstore _ _), hco.inv⟩
+
+theorem fs_rmeta {s : FsBackend} (h : WF s) (fn : Fn) (arg : Arg) (mk : MKey) : Refines s (.rmeta fn arg mk) := by
+  unfold Refines
+  have hsp : (Spec.step (abs s) (.rmeta fn arg mk)) =
+      (abs s, .bytes (match s.ds.inputNV (.mdat fn arg mk false) with
+        | some (.raw b) => some b
+        | _ => none)) := by
+    simp only [Spec.step, abs_eq]
+    rw [alookup_abs_mdata]
+    rfl
+  rw [hsp]
+  simp only [step]
+  unfold DS.existsNV DS.inputNV
+  cases hl : alookup s.ds.links (.mdat fn arg mk false) with
+  | none => exact ⟨rfl, rfl, h⟩
+  | some v =>
+    simp only
+    cases ho : alookup s.ds.objs (.mdat fn arg mk false, v) with
+    | none => exact ⟨rfl, rfl, h⟩
+    | some c =>
+      obtain ⟨b, hb⟩ := h.ds.metaOk fn arg mk v hl
+      rw [ho] at hb; cases hb
+      exact ⟨rfl, rfl, h⟩
+
+theorem fs_hold {s : FsBackend} (h : WF s) (b : Bytes) : Refines s (.hold b) := by
+  obtain ⟨a, c⟩ := mapCache_wf h (fun c => Cache.hold c (b + 1))
+    (fun c hc => ⟨Cache.prune_stepRaw_inv (.hold (b + 1)) hc, fun _ x => x, fun _ x => x⟩)
+  exact ⟨rfl, by rw [abs_eq, abs_eq]; exact congrArg absDS c, a⟩
+
+theorem fs_drop {s : FsBackend} (h : WF s) (b : Bytes) : Refines s (.drop b) := by
+  obtain ⟨a, c⟩ := mapCache_wf h (fun c => Cache.drop c (b + 1))
+    (fun c hc => ⟨Cache.prune_stepRaw_inv (.drop (b + 1)) hc, fun _ x => x, fun _ x => x⟩)
+  exact ⟨rfl, by rw [abs_eq, abs_eq]; exact congrArg absDS c, a⟩
+
+theorem fs_refines {s : FsBackend} (h : WF s) (op : Op) (hadm : FsBackend.admissible s op) : Refines s op := by
+  cases op with
+  | memoize fn arg ov mem val size wr => exact fs_memoize h fn arg ov mem val size wr hadm
+  | getm ks => exact fs_getm h ks
+  | lookread fn arg => exact fs_lookread h fn arg
+  | ismem fn arg => exact fs_ismem h fn arg
+  | fcall fn arg => exact fs_fcall h fn arg
+  | ffn fn => exact fs_ffn h fn
+  | fall => exact fs_fall h
+  | lsf => exact fs_lsf h
+  | lsm fn => exact fs_lsm h fn
+  | wmeta fn arg k b => exact fs_wmeta h fn arg k b hadm
+  | rmeta fn arg k => exact fs_rmeta h fn arg k
+  | hold b => exact fs_hold h b
+  | drop b => exact fs_drop h b
+
+theorem wf_init (separate : Bool) (budget : Option Nat) : WF (FsBackend.init separate budget false) := by
+  refine ⟨DSWF.empty, rfl, ?_, ?_, ?_⟩
+  · intro m mi hm; cases hm
+  · intro fn arg fn' arg' m ck ck' hr; cases hr
+  · intro c hc
+    cases budget with
+    | none => cases hc
+    | some b =>
+      simp only [FsBackend.init, Option.map_some, Option.some.injEq] at hc
+      subst hc
+      exact ⟨fun k e hke => (by cases hke), fun k v hkv => (by cases hkv), Cache.inv_init b⟩
+
+theorem abs_init (separate : Bool) (budget : Option Nat) :
+    FsBackend.abs (FsBackend.init separate budget false) = Spec.empty := rfl
+
+/-! ### a decidable sufficient condition for admissibility (for non-vacuity checks) -/
+
+def FsBackend.admissibleB (s : FsBackend) : Op → Bool
+  | .memoize _ _ _ mem val _ _ =>
+    (alookup s.heap mem).isNone &&
+    s.ds.objs.all (fun p => match p.2 with | .mrec m _ => m != mem | _ => true) &&
+    (match val with | some b => decide (b + 1 < 1000000) | none => true)
+  | .wmeta fn arg _ _ => (FsBackend.readMemento s.ds fn arg).isSome
+  | _ => true
+
+theorem FsBackend.admissible_of_B {s : FsBackend} {op : Op} (h : FsBackend.admissibleB s op = true) :
+    FsBackend.admissible s op := by
+  cases op with
+  | memoize fn arg ov mem val size wr =>
+    simp only [FsBackend.admissibleB, Bool.and_eq_true] at h
+    obtain ⟨⟨h1, h2⟩, h3⟩ := h
+    refine ⟨by simpa using h1, ?_, ?_⟩
+    · intro fn' arg' m ck hr
+      obtain ⟨v, _, ho⟩ := (readMemento_eq s.ds fn' arg' m ck).mp hr
+      have := List.all_eq_true.mp h2 _ (alookup_mem ho)
+      simpa using this
+    · intro b hb; subst hb; simpa using h3
+  | wmeta fn arg k b => exact h
+  | _ => trivial
 
 end Memento.Store
